@@ -249,9 +249,28 @@ static void nasm_register_size_optimize(struct instr *instrc) {
   }
 }
 
+/**
+ * true if the destination operand of @param instrc is 32 bits wide
+ * (a 32-bit register, or memory with the dword keyword)
+ */
+static bool is_dword_destination(struct instr *instrc) {
+  unsigned int mode = instrc->opd[0].reg & MODE_MASK;
+  if (instrc->mem_disp)
+    return instrc->keyword.is_dword;
+  return mode == reg32 || mode == ext32;
+}
+
 static void encode_imm_data_transfer(struct instr *instrc) {
   // calculate value for +rd and +rw
   instrc->rd_offset = instrc->opd[0].reg & VALUE_MASK;
+  // a 32-bit destination takes exactly four immediate bytes: a negative value
+  // is its low 32 bits, and a value with bit 31 set is not widened
+  if (is_dword_destination(instrc)) {
+    if (IN_RANGE(instrc->cons, NEG32BIT + NEG32BIT_CHECK, NEG64BIT))
+      instrc->cons &= MAX_UNSIGNED_32BIT;
+    if (IN_RANGE(instrc->cons, NEG32BIT_CHECK, MAX_UNSIGNED_32BIT))
+      instrc->reduced_imm = true;
+  }
   // only condition for mov with M operand encoding implementation
   // check if immediate operand is a negative 32 bit value
   if (IN_RANGE(instrc->cons, NEG32BIT + 1, NEG64BIT) &&
@@ -347,6 +366,10 @@ void encode_imm(struct instr *instrc) {
     if (IN_RANGE(instrc->cons, NEG32BIT + 1, NEG64BIT)) {
       DO_NOT_PAD(instrc->cons, instrc->reduced_imm, MAX_UNSIGNED_32BIT);
     }
+    // a 32-bit operand takes exactly four immediate bytes
+    if (is_dword_destination(instrc) &&
+        IN_RANGE(instrc->cons, NEG32BIT_CHECK, MAX_UNSIGNED_32BIT))
+      instrc->reduced_imm = true;
     if ((instrc->opd[0].reg & REG_MASK) == al)
       instrc->key++;
     // 16 to 64 bit register and 8 bit immediate combination
